@@ -13,6 +13,10 @@ CHECKS = {
    tech="TLA+ spec History.tla: TLC exhaustive model check over add/save/load/clear/foreign-file histories + TLC-derived tours on the real SearchHistory + TLC trace validation of random executions",
    text="TLC explores all histories (<= 4/6 steps) of add/save/load/clear with the on-disk file replaced by missing/empty/garbage/valid files carrying nonsensical maxima, checking that recording never crashes, keeps the newest entry, collapses immediate repeats and that load returns what was saved; the transition relation is replayed on the real history.SearchHistory and every recorded execution (tours and long random ones with hostile query strings and damaged files) is validated by TLC, including the recent/top/stats views.",
    note="Entry identity = digest of all fields; garbage-file outcomes are left free except that recording must keep working; trusted: TLC, Go driver."),
+ "C18": dict(cat="model_checking", ref="DESIGN.md section 5, C18",
+   tech="TLA+ spec Metrics.tla: TLC exhaustive model check (all tag iteration orders) + TLC trace validation of executions recorded from the real Collector / PerformanceMonitor, incl. concurrent bursts",
+   text="TLC explores every sequence (<= 5/6 steps) of get-or-create with every iteration order of the tag map, increments and observations, checking one series per identity, histogram consistency and percentile monotonicity; executions of the real collector (gets repeated with freshly built maps, counters, histograms, the monitor's record calls and report totals, concurrent bursts) are validated by TLC against the same registry/accounting model.",
+   note="No graph walk for this component (recorder only); trusted: TLC, Go driver; race detector used in the thorough tier."),
 }
 NOT_APPLICABLE = {}
 
